@@ -18,7 +18,11 @@ THEOREMS = ["Mistune.blockLoop_total", "Mistune.inlineLoop_total", "Mistune.bloc
             # overlap, their texts concatenate to the source, and no rule matches anywhere inside a hole or the tail
             "Mistune.blockLoop_partition", "Mistune.blockLoop_partition_disjoint", "Mistune.blockLoop_partition_concat", "Mistune.blockLoop_holes_unclaimed", "Mistune.blockLoop_kinds",
             "Mistune.blockLoop_partition_total", "Mistune.inlineLoop_partition", "Mistune.inlineLoop_partition_disjoint", "Mistune.inlineLoop_partition_concat", "Mistune.inlineLoop_holes_unclaimed",
-            "Mistune.inlineLoop_kinds", "Mistune.inlineLoop_partition_total"]
+            "Mistune.inlineLoop_kinds", "Mistune.inlineLoop_partition_total",
+            # list items: the de-indentation of the item text loses, duplicates or reorders no character other than leading blanks / tabs, keeps the line structure,
+            # and is anchored at the line start (lines written with the item's indentation come back verbatim)
+            "Mistune.expandTab_eq", "Mistune.replaceFirst_prefix", "Mistune.cleanListItemText_eq", "Mistune.cleanListItemText_eq_ofRuleCfg", "Mistune.clean_conserve",
+            "Mistune.clean_line_count", "Mistune.clean_verbatim"]
 
 WORD = re.compile(r"[A-Za-z]+")
 PLUGIN_SETS = [[], ["task_lists"], ["task_lists", "table", "def_list"], ["table"], ["def_list"], ["strikethrough", "mark", "insert", "superscript", "subscript"], ["speedup"], ["spoiler"],
